@@ -18,7 +18,7 @@ use crate::{
 pub const DEF: PropDef = PropDef {
     id: "C04",
     groups,
-    rule: "(n 0..=12, s 1..=4, T 1..=3, min_time / max_time in {unset, 0, ps-scale .. hours, Duration::MAX} incl. min > max, skip_ext_time in {unset,false,true}, f in {10^6..10^12}, cost scripts: per-call cost constant | growing | table (noisy) | zero-then-constant, generation / drop / read costs, per-thread skew); budgets are drawn relative to the per-round cost so that the boundary falls inside the first 1..=40 rounds, ties exactly on a budget are generated on purpose; \
+    rule: "(n 0..=12, s 1..=4, T 1..=3, min_time / max_time in {unset, 0, ps-scale .. hours, Duration::MAX} incl. min > max, skip_ext_time in {unset,false,true}, f in {10^6..10^12}, cost scripts: per-call cost constant | growing | table (noisy) | zero-then-constant, generation / drop / read costs, per-thread skew); budgets are drawn relative to the per-round cost so that the boundary falls inside the first 1..=40 rounds, ties exactly on a budget are generated on purpose; tuned: tuned sample sizes (C19's generator: cost models around the 100-precision threshold, max_time cutting tuning short) judged for the stopping rule only; \
            non-trivial = the stopping round is decided by a time clause (max_time reached, or min_time kept the run going past sample_count); distinct by serialized case, classes report which clause fired x skip_ext_time x T.",
     assumptions: &[
         "every timestamp is supplied and logged by the scripted counter; elapsed time is recomputed from the logged readings with floor((b-a)*10^12/f)",
@@ -263,8 +263,26 @@ fn floor_cases(_: crate::engine::Tier) -> Vec<LoopCase> {
     v
 }
 
+/// Tuned sample sizes: the same rule holds while the size is being tuned
+/// (budgets are checked after every round, tuning rounds included; discarded
+/// tuning samples do not count towards sample_count). The trace model of C19
+/// replays the rule together with the doubling; only the verdicts about the
+/// stopping rule are C04's business.
+fn check_tuned(c: &LoopCase) -> Verdict {
+    match super::c19::check_case(c) {
+        Verdict::Fail { signature, message } if matches!(signature.as_str(), "ran-too-long" | "stopped-early" | "missing-readings") => Verdict::Fail { signature: format!("tuned:{signature}"), message },
+        Verdict::Fail { .. } => Verdict::Inconclusive("a verdict of C19, not of the stopping rule".into()),
+        Verdict::Pass { nontrivial } => {
+            classify(format!("tuned/{}", if c.max_time.is_some() { "max_time" } else { "no-budget" }));
+            Verdict::pass(nontrivial && c.max_time.is_some())
+        }
+        other => other,
+    }
+}
+
 fn groups(g: &mut Groups) {
+    g.prop("tuned", 9_000, 100_000, || super::c19::case(), check_tuned);
     g.enumerate("ties", ties, false, check_case);
     g.enumerate("one_ns_floor", floor_cases, false, check_case);
-    g.prop("random", 20_000, 600_000, case(), check_case);
+    g.prop("random", 60_000, 600_000, || case(), check_case);
 }
